@@ -39,7 +39,8 @@ How Python values are represented (the representation is the trusted part):
                            .ln[i] is pyindex on sc_ln (the first element, the str '10' in Python, is
                            the number 10 in the model), .max_len is replaced by the translation
                            of the right-hand side of the single `self.max_len = ...` that must be
-                           the last statement of __init__
+                           the last statement of __init__; no method other than __init__ /
+                           _load_omen may store into these attributes (checked)
   collections.Counter      association list Z -> Z in insertion order, 0 on a missing key
 
 Accepted subset (anything else raises TranslateError with file:line):
@@ -128,6 +129,11 @@ fun let in if then else match with end forall exists Type Prop Set SProp as at r
 for mod""".split()) | {s["coq"] for s in SPECS}
 
 
+# Python names the translation gives a fixed meaning to: they may not be rebound, neither as a
+# local variable nor at module level (Counter must be collections.Counter)
+BUILTINS_USED = {"len", "range", "enumerate", "print", "str", "Counter", "KeyError"}
+
+
 class Env:
     def __init__(self):
         self.types = {}        # name -> Ty
@@ -167,7 +173,7 @@ class FunctionTranslator:
         return "tmp%d" % self.uid
 
     def check_name(self, node, name):
-        if name in RESERVED or name.startswith("py_") or re.fullmatch(r"tmp\d+", name) \
+        if name in RESERVED or name in BUILTINS_USED or name.startswith("py_") or re.fullmatch(r"tmp\d+", name) \
                 or not name.isidentifier() or not name.isascii():
             self.fail(node, "the variable name %r collides with the generated code" % name)
 
@@ -311,10 +317,10 @@ class FunctionTranslator:
             x = self.tmp()
             self.emit("%s <- kc_mem1 kc (te_key %s) ;;" % (x, _paren(c)))
             return x
+        k = self.as_int(key, env)          # Python evaluates the left operand first
         c, tc = self.expr(container, env)
         if tc.kind != "kcpath" or len(tc.keys) not in (1, 2):
             self.fail(node, "`in` is supported on the keyspace cache only")
-        k = self.as_int(key, env)
         x = self.tmp()
         self.emit("%s <- kc_mem%d kc %s %s ;;" % (x, len(tc.keys) + 1, " ".join(_paren(t) for t in tc.keys), _paren(k)))
         return x
@@ -552,9 +558,11 @@ class FunctionTranslator:
             if isinstance(t, ast.Name):
                 add(t.id)
             elif isinstance(t, ast.Subscript):
+                # a store into a counter changes that counter; every other store (through the trainer
+                # object, or through a local that holds one of its grammar entries) changes the cache
                 r = self.root(t)
                 ty = env.types.get(r)
-                add("kc" if ty is not None and ty.kind == "trainer" else r)
+                add(r if ty is not None and ty.kind == "counter" else "kc")
             elif isinstance(t, ast.Tuple):
                 for x in t.elts:
                     target(x)
@@ -974,8 +982,59 @@ def _check_module(path, tree, names):
                         raise TranslateError("%s:%d: %s is rebound" % (path, n.lineno, ast.unparse(t)))
         if isinstance(n, ast.Name) and n.id in ("setattr", "delattr", "__dict__", "globals", "exec", "eval"):
             raise TranslateError("%s:%d: %s is used in the module" % (path, n.lineno, n.id))
-        if isinstance(n, (ast.Global, ast.Nonlocal)) and set(n.names) & names:
+        if isinstance(n, (ast.Global, ast.Nonlocal)) and set(n.names) & (names | BUILTINS_USED):
             raise TranslateError("%s:%d: global / nonlocal of a translated name" % (path, n.lineno))
+        # the builtins the translation interprets must be the builtins
+        bound = []
+        if isinstance(n, (ast.FunctionDef, ast.AsyncFunctionDef, ast.ClassDef)):
+            bound = [n.name] + ([a.arg for a in n.args.args + n.args.kwonlyargs + n.args.posonlyargs
+                                 + [x for x in (n.args.vararg, n.args.kwarg) if x]]
+                                if not isinstance(n, ast.ClassDef) else [])
+        elif isinstance(n, ast.Name) and isinstance(n.ctx, (ast.Store, ast.Del)):
+            bound = [n.id]
+        elif isinstance(n, ast.ExceptHandler) and n.name:
+            bound = [n.name]
+        elif isinstance(n, (ast.Import, ast.ImportFrom)):
+            for a in n.names:
+                b = a.asname or a.name.split(".")[0]
+                if b == "Counter" and isinstance(n, ast.ImportFrom) and n.module == "collections" and n.level == 0 \
+                        and a.name == "Counter":
+                    continue
+                if a.name == "*":
+                    raise TranslateError("%s:%d: `import *` may rebind a builtin the translation interprets" % (path, n.lineno))
+                bound.append(b)
+        for b in bound:
+            if b in BUILTINS_USED:
+                raise TranslateError("%s:%d: %s is rebound in the module" % (path, n.lineno, b))
+
+
+SCORER_STATE = ("ln", "ip", "cp", "ngram", "max_len")
+SCORER_BUILDERS = ("__init__", "_load_omen")
+
+
+def _check_scorer_class(path, cls):
+    """the scorer record of the model is what __init__ / _load_omen leave behind: no other method of
+    the class may change self.ln / self.ip / self.cp / self.ngram / self.max_len"""
+    def is_state(n):
+        return isinstance(n, ast.Attribute) and isinstance(n.value, ast.Name) and n.value.id == "self" \
+            and n.attr in SCORER_STATE
+
+    for fn in cls.body:
+        if not isinstance(fn, (ast.FunctionDef, ast.AsyncFunctionDef)) or fn.name in SCORER_BUILDERS:
+            continue
+        for n in ast.walk(fn):
+            bad = None
+            if is_state(n) and not isinstance(n.ctx, ast.Load):
+                bad = n
+            elif isinstance(n, ast.Subscript) and is_state(n.value) and not isinstance(n.ctx, ast.Load):
+                bad = n
+            elif isinstance(n, ast.Call) and isinstance(n.func, ast.Attribute) and is_state(n.func.value):
+                bad = n          # self.ln.append(...), self.ip.update(...), ...
+            elif isinstance(n, ast.Call) and any(isinstance(a, ast.Name) and a.id == "self" for a in n.args):
+                bad = n          # self handed to another function
+            if bad is not None:
+                raise TranslateError("%s:%d: %s.%s changes (or may change) the loaded tables: %s"
+                                     % (path, bad.lineno, cls.name, fn.name, _comment(ast.unparse(bad))[:80]))
 
 
 def render(out, repo=None):
@@ -996,6 +1055,7 @@ def render(out, repo=None):
                 raise TranslateError("%s: class %s not found exactly once" % (path, spec["cls"]))
             cls_node = classes[0]
             scope = cls_node.body
+            _check_scorer_class(path, cls_node)
         # the name must be defined exactly once in the whole module (no shadowing def elsewhere)
         alld = [n for n in ast.walk(tree) if isinstance(n, (ast.FunctionDef, ast.AsyncFunctionDef, ast.ClassDef))
                 and n.name == spec["py"]]
